@@ -190,6 +190,19 @@ func evalCase(c *Case) (kind, sig, msg string, removedApplied bool) {
 				return "C06/empty-cut-resolved", "empty-cut-rest-raw-query", fmt.Sprintf("REST resolution with the raw query %q names a version that selects no operation but answered 200: %s", q.Encode()+tail, js(body)), false
 			}
 		}
+		// the version parameter given twice, the first time without a value (a reader that takes the first value of a
+		// parameter sees no version at all)
+		name := "versionId"
+		if c.Cut == "time" {
+			name = "versionTime"
+		}
+		for _, raw := range []string{name + "=&" + q.Encode(), name + "&" + q.Encode(), "x=1&" + name + "=&" + q.Encode()} {
+			if st, body, pn := restResolveRaw(c, restNS+":"+c.Suffix, pub, unpub, raw); pn != "" {
+				return "C06/panic", "panic", "REST resolve handler panicked: " + pn, false
+			} else if st == http.StatusOK {
+				return "C06/empty-cut-resolved", "empty-cut-rest-repeated-parameter", fmt.Sprintf("REST resolution with the raw query %q names a version that selects no operation but answered 200: %s", raw, js(body)), false
+			}
+		}
 		// the same request for the long-form DID of an anchored DID must not fall back to its embedded initial state
 		if lf := longForm(c); lf != "" && len(pub) > 0 && c.Case.Model().Found {
 			if st, body, pn := restResolveDID(c, lf, pub, unpub, q); pn != "" {
